@@ -36,7 +36,7 @@ type damageJ struct {
 
 // Replay is the "case" object of a replay file.
 type Replay struct {
-	Type      string      `json:"type"` // build | order | open | probe | offsets | walk | retain | block | damage
+	Type      string      `json:"type"` // build | order | open | probe | offsets | policy | walk | retain | block | damage
 	Cfg       TableCfg    `json:"cfg"`
 	Shape     string      `json:"shape,omitempty"`
 	Strict    uint        `json:"strict"`
@@ -261,6 +261,8 @@ func runReplay(a vlib.Args, res *vlib.Result) {
 			}
 		case "offsets":
 			checkOffsets(tc, o, strict, unhxs(rp.Probes), out)
+		case "policy":
+			checkPolicy(tc, o, strict, unhxs(rp.Probes), out)
 		case "walk":
 			checkWalk(tc, o, strict, rs, ops, out)
 		case "decoy":
